@@ -331,9 +331,10 @@ type step struct {
 }
 
 type script struct {
-	Name  string `json:"name"`
-	Class string `json:"class"` // tlc | cex_orig | cex_crash | seeded
-	Steps []step `json:"steps"`
+	Name    string `json:"name"`
+	Class   string `json:"class"`   // tlc | cex_orig | cex_crash | seeded
+	Cascade *bool  `json:"cascade"` // counterexamples: the getter wiring the model behaviour used
+	Steps   []step `json:"steps"`
 }
 
 func (h *harness) apply(s step) bool {
@@ -620,7 +621,8 @@ func TestDriver(t *testing.T) {
 			cfgs = append(cfgs, config{OdsW: 2, K: k, Cascade: casc})
 		}
 	}
-	big := []config{{OdsW: 2, K: 5, Cascade: false}, {OdsW: 2, K: 5, Cascade: true}, {OdsW: 2, K: 2, Cascade: true}}
+	big := []config{{OdsW: 2, K: 5, Cascade: false}, {OdsW: 2, K: 5, Cascade: true},
+		{OdsW: 2, K: 2, Cascade: false}, {OdsW: 2, K: 2, Cascade: true}}
 
 	// (1) behaviours / counterexamples produced by TLC
 	i := 0
@@ -631,7 +633,9 @@ func TestDriver(t *testing.T) {
 			reps := vh.EnvInt("VERIF_CEX_REPEAT", 4)
 			for j := 0; j < reps; j++ {
 				for _, c := range big {
-					r.run(c, sc, 0)
+					if sc.Cascade == nil || *sc.Cascade == c.Cascade {
+						r.run(c, sc, 0)
+					}
 				}
 			}
 		default:
